@@ -187,5 +187,19 @@ def run(report, tier):
     report.assumptions = ["threading.Event modelled as a flag with wait(timeout) = may time out whenever the flag is clear",
                           "task and callback bodies are opaque two-/one-line functions of the stated kinds"]
     report.trusted_base = ["z3 5.1.0", "engine/ts (py2ts translator, validated at every run by replaying solver witnesses on the real code)"]
+    # sequential part: callback exceptions contained for every kind of callable (CrossHair)
+    from engine.ch import Ob, Runner
+    import harness.c16 as H
+
+    obs = []
+    for kind in ("function", "lambda", "partial", "partial_arity", "object", "bound", "builtin_arity", "one_arg"):
+        for fail in (False, True):
+            for task in ("ret", "raise"):
+                for when in ("before", "after"):
+                    shape = {"kind": kind, "fail": fail, "task": task, "when": when}
+                    code = 101 if kind in ("partial_arity", "builtin_arity", "one_arg") else 100
+                    obs.append(Ob("c16_contained_{0}_{1}_{2}_{3}".format(kind, int(fail), task, when), "value: int, extra: int",
+                                  "H.h_contained({0!r}, value, extra)".format(shape), shape=shape, twin_codes=(code,), timeout=60))
+    Runner(report, "harness.c16", tier).run(obs)
     driver.run_all("props.c16", jobs, report)
     report.extra["windows"] = len(jobs)
